@@ -32,6 +32,7 @@ import (
 	"crypto/sha256"
 	"encoding/binary"
 	"encoding/hex"
+	"encoding/json"
 	"fmt"
 	"io"
 	"math/big"
@@ -754,6 +755,104 @@ func c15Tx(c *Ctx) *types.Transaction {
 	return types.NewTransaction(from, to, amount, uint64(c.Rnd.Intn(1e6)), gp, data, typ, chain, exp, name, string(c15Rand(c, c.Rnd.Intn(20))))
 }
 
+// ---- transactions whose Data is JSON (box, asset ...) and that pass every check of VerifyTxBody that comes
+// before the JSON is decoded (gas price, expiration window, chain id, amount, names, data present, `to` rule)
+
+func c15ValidTx(c *Ctx, typ uint16, data []byte, exp uint64) *types.Transaction {
+	gp := big.NewInt(int64(1+c.Rnd.Intn(3)) * 1000000000)
+	amount := big.NewInt(int64(c.Rnd.Intn(1000)))
+	from := common.BigToAddress(big.NewInt(int64(1 + c.Rnd.Intn(1000))))
+	to := common.BigToAddress(big.NewInt(int64(1 + c.Rnd.Intn(1000))))
+	switch typ {
+	case params.CreateContractTx, params.RegisterTx, params.CreateAssetTx, params.ModifyAssetTx, params.BoxTx:
+		return types.NoReceiverTransaction(from, amount, uint64(100000+c.Rnd.Intn(1e6)), gp, data, typ, 1, exp, "", "m")
+	}
+	return types.NewTransaction(from, to, amount, uint64(100000+c.Rnd.Intn(1e6)), gp, data, typ, 1, exp, "", "m")
+}
+
+// JSON of a sub-transaction.  It is marshalled as an ordinary tx and the type is patched in afterwards:
+// Transaction.MarshalJSON computes Hash(), which decodes box data (and crashed on a null sub-tx itself).
+func c15SubTxJSON(c *Ctx, typ uint16, data []byte, exp uint64) string {
+	b, err := json.Marshal(c15ValidTx(c, params.OrdinaryTx, data, exp))
+	if err != nil {
+		return "{}"
+	}
+	j := strings.Replace(string(b), `"type":"0"`, fmt.Sprintf(`"type":"%d"`, typ), 1)
+	switch typ {
+	case params.CreateContractTx, params.RegisterTx, params.CreateAssetTx, params.ModifyAssetTx, params.BoxTx:
+		if i := strings.Index(j, `"to":"`); i >= 0 {
+			k := strings.Index(j[i+6:], `"`)
+			j = j[:i] + `"to":null` + j[i+6+k+1:]
+		}
+	}
+	return j
+}
+
+// JSON shapes for the Data of a tx of type typ: honest ones, null elements, wrong JSON types, nesting
+func c15JsonData(c *Ctx, typ uint16, exp uint64) (string, string) {
+	generic := [][2]string{{"null", "null"}, {"[]", "array"}, {"[null]", "array-null"}, {"{}", "empty-object"}, {"1", "number"}, {`"x"`, "string"}, {"{", "truncated"}, {`{"a":null}`, "unknown-null"}}
+	pick := func(l [][2]string) (string, string) { x := l[c.Rnd.Intn(len(l))]; return x[0], x[1] }
+	switch typ {
+	case params.BoxTx:
+		sub := c15SubTxJSON(c, params.OrdinaryTx, nil, exp+uint64(c.Rnd.Intn(60)))
+		early := c15SubTxJSON(c, params.OrdinaryTx, nil, exp-1-uint64(c.Rnd.Intn(60)))
+		innerNull := c15SubTxJSON(c, params.BoxTx, []byte(`{"subTxList":[null]}`), exp+5)
+		innerOK := c15SubTxJSON(c, params.BoxTx, []byte(`{"subTxList":[`+sub+`]}`), exp+5)
+		asset := c15SubTxJSON(c, params.CreateAssetTx, []byte(`{"category":1,"decimal":18,"isReplenishable":true,"isDivisible":true,"profile":null}`), exp+5)
+		return pick(append(generic, [][2]string{
+			{`{"subTxList":[null]}`, "box-null-elem"},
+			{`{"subTxList":[` + sub + `,null]}`, "box-valid-then-null"},
+			{`{"subTxList":[null,` + sub + `]}`, "box-null-then-valid"},
+			{`{"subTxList":[null,null,null]}`, "box-nulls"},
+			{`{"subTxList":[]}`, "box-zero-subtxs"},
+			{`{"subTxList":null}`, "box-list-null"},
+			{`{"subTxList":{}}`, "box-list-object"},
+			{`{"subTxList":[{}]}`, "box-empty-subtx"},
+			{`{"subTxList":[1]}`, "box-number-elem"},
+			{`{"subTxList":["x"]}`, "box-string-elem"},
+			{`{"subTxList":[[]]}`, "box-array-elem"},
+			{`{"subTxList":[[null]]}`, "box-array-null-elem"},
+			{`{"subTxList":[` + sub + `]}`, "box-valid"},
+			{`{"subTxList":[` + sub + `,` + sub + `]}`, "box-duplicate-subtx"},
+			{`{"subTxList":[` + early + `]}`, "box-subtx-expires-first"},
+			{`{"subTxList":[` + innerNull + `]}`, "box-in-box-null"},
+			{`{"subTxList":[` + innerOK + `]}`, "box-in-box"},
+			{`{"subTxList":[` + asset + `]}`, "box-asset-subtx"},
+			{`{"subTxList":[` + strings.Replace(sub, `"gasPrice"`, `"gasPriceX"`, 1) + `]}`, "box-subtx-missing-field"},
+			{`{"subTxList":[` + strings.Replace(sub, `"sigs":[]`, `"sigs":[null]`, 1) + `]}`, "box-subtx-null-sig"},
+			{`{"subTxList":[` + strings.Replace(sub, `"amount":"`, `"amount":null,"x":"`, 1) + `]}`, "box-subtx-null-amount"},
+			{`{"subTxList":[` + strings.Replace(sub, `"to":"`, `"to":null,"x":"`, 1) + `]}`, "box-subtx-null-to"},
+		}...))
+	case params.CreateAssetTx:
+		return pick(append(generic, [][2]string{
+			{`{"category":1,"decimal":18,"isReplenishable":true,"isDivisible":true,"profile":{"name":"a"}}`, "asset-valid"},
+			{`{"category":1,"decimal":18,"isReplenishable":true,"isDivisible":true,"profile":null}`, "asset-null-profile"},
+			{`{"category":1,"decimal":18,"isReplenishable":true,"isDivisible":true,"profile":{"name":null}}`, "asset-null-profile-value"},
+			{`{"category":null,"decimal":null,"isReplenishable":null,"isDivisible":null,"profile":null}`, "asset-all-null"},
+			{`{"category":"1","decimal":18}`, "asset-string-category"},
+			{`{"category":99,"decimal":200,"isDivisible":false}`, "asset-out-of-range"},
+			{`{"category":1,"decimal":18,"isDivisible":true,"profile":[null]}`, "asset-profile-array"},
+		}...))
+	default: // issue / replenish / modify / transfer asset, signers, register, contract: decoded later by the processor
+		return pick(append(generic, [][2]string{
+			{`{"assetCode":null,"assetId":null,"supplyAmount":null,"replenishAmount":null,"transferAmount":null}`, "fields-null"},
+			{`{"assetCode":"0x01","supplyAmount":"1","metaData":null}`, "issue-like"},
+			{`{"assetCode":"0x01","updateProfile":null}`, "modify-null-profile"},
+			{`{"signers":[null]}`, "signers-null-elem"},
+			{`[{"address":null,"weight":null}]`, "signers-array-nulls"},
+		}...))
+	}
+}
+
+func c15JsonTx(c *Ctx) (*types.Transaction, string) {
+	now := uint64(time.Now().Unix())
+	exp := now + 120 + uint64(c.Rnd.Intn(1500))
+	typ := []uint16{params.BoxTx, params.BoxTx, params.BoxTx, params.CreateAssetTx, params.IssueAssetTx, params.ReplenishAssetTx, params.ModifyAssetTx,
+		params.TransferAssetTx, params.ModifySignersTx, params.RegisterTx, params.CreateContractTx}[c.Rnd.Intn(11)]
+	data, class := c15JsonData(c, typ, exp)
+	return c15ValidTx(c, typ, []byte(data), exp), fmt.Sprintf("type%d:%s", typ, class)
+}
+
 func c15Block(c *Ctx) *types.Block {
 	h := &types.Header{
 		ParentHash:   c15Hash(c),
@@ -768,7 +867,12 @@ func c15Block(c *Ctx) *types.Block {
 	}
 	b := &types.Block{Header: h}
 	for i := c.Rnd.Intn(3); i > 0; i-- {
-		b.Txs = append(b.Txs, c15Tx(c))
+		if c.Rnd.Intn(3) == 0 {
+			tx, _ := c15JsonTx(c)
+			b.Txs = append(b.Txs, tx)
+		} else {
+			b.Txs = append(b.Txs, c15Tx(c))
+		}
 	}
 	for i := c.Rnd.Intn(3); i > 0; i-- {
 		var s types.SignData
@@ -790,7 +894,13 @@ func c15Payload(c *Ctx, code p2p.MsgCode) []byte {
 	case p2p.TxsMsg:
 		var txs types.Transactions
 		for i := c.Rnd.Intn(4); i > 0; i-- {
-			txs = append(txs, c15Tx(c))
+			if c.Rnd.Intn(2) == 0 {
+				tx, class := c15JsonTx(c)
+				c.Count("txjson:" + class)
+				txs = append(txs, tx)
+			} else {
+				txs = append(txs, c15Tx(c))
+			}
 		}
 		return c15Enc(&txs)
 	case p2p.GetBlocksMsg, p2p.GetBlocksWithChangeLogMsg:
@@ -1143,6 +1253,9 @@ func c15(c *Ctx) {
 				if code == p2p.DiscoverResMsg && strings.Contains(pmsg, "nil pointer") {
 					sig = "c15/discover-node-nil-deref"
 				}
+				if code == p2p.TxsMsg && strings.Contains(pmsg, "nil pointer") {
+					sig = "c15/box-null-subtx"
+				}
 				c15Fail(c, sig, fmt.Sprintf("ProtocolManager.work(code=%#x) panics on a %d-byte payload (%s): %s; handlePeer has no recover", uint32(code), len(payload), class, pmsg),
 					map[string]interface{}{"code": uint32(code), "payload": c15Hex(payload)})
 			}
@@ -1176,6 +1289,64 @@ func c15(c *Ctx) {
 		if out == "panic" {
 			c15Fail(c, "c15/discover-node-nil-deref", "handleDiscoverResMsg -> VerifyNode -> p2p.ParseNodeString: BytesToNodeID returns nil for a 128-char non-hex id and nodeID.PubKey() dereferences it: "+pmsg,
 				map[string]interface{}{"code": uint32(p2p.DiscoverResMsg), "payload": c15Hex(payload)})
+		}
+	}
+	// (6f) TxsMsg carrying txs whose Data is JSON: every shape, deterministically, through the real handler
+	{
+		pm, _, vp := c15NewPM(dir)
+		now := uint64(time.Now().Unix())
+		for _, typ := range []uint16{params.BoxTx, params.CreateAssetTx, params.IssueAssetTx, params.ModifySignersTx} {
+			seen := map[string]bool{}
+			for tries := 0; tries < 400; tries++ {
+				data, class := c15JsonData(c, typ, now+600)
+				if seen[class] {
+					continue
+				}
+				seen[class] = true
+				txs := types.Transactions{c15ValidTx(c, typ, []byte(data), now+600)}
+				payload := c15Enc(&txs)
+				out, pmsg := c15Timed(5*time.Second, func() string {
+					if err := pm.VerifWork(&p2p.Msg{Code: p2p.TxsMsg, Content: payload}, vp); err != nil {
+						return "err"
+					}
+					return "ok"
+				})
+				c.Count(fmt.Sprintf("txs-json-probe:type%d:%s:%s", typ, class, out))
+				if out == "panic" {
+					sig := "c15/txs-json-panic"
+					if typ == params.BoxTx && strings.Contains(pmsg, "nil pointer") {
+						sig = "c15/box-null-subtx"
+					}
+					c15Fail(c, sig, fmt.Sprintf("handleTxsMsg panics on a tx of type %d whose data is %s (%s): %s; it runs on handlePeer's goroutine, no recover", typ, data, class, pmsg),
+						map[string]interface{}{"code": uint32(p2p.TxsMsg), "payload": c15Hex(payload), "data": data})
+				}
+			}
+		}
+		time.Sleep(100 * time.Millisecond) // goroutines spawned by handleTxsMsg (ExistTx / AddTx)
+	}
+	// (6g) what the pool path does with such txs once VerifyTxBody let them through: real TxPool + TxGuard
+	{
+		pool := txpool.NewTxPool()
+		guard := txpool.NewTxGuard(uint32(time.Now().Unix()))
+		for it := 0; it < c.N/2+50; it++ {
+			tx, class := c15JsonTx(c)
+			now := uint64(time.Now().Unix())
+			out, pmsg := SafeMsg(func() string {
+				tx.Hash() // every receiver of a block hashes its txs before looking at them (consensus verifyTxs)
+				if err := tx.VerifyTxBody(1, now, false); err != nil {
+					return "rejected"
+				}
+				guard.ExistTx(common.Hash{1}, tx)
+				pool.AddTx(tx)
+				pool.AddTx(tx)
+				pool.GetTxs(uint32(now), 50)
+				pool.GetTxs(uint32(now)+4000, 50) // everything timed out: delTx path
+				return "accepted"
+			})
+			c.Count("pool-path:" + class + ":" + out)
+			if out == "panic" {
+				c15Fail(c, "c15/tx-json-pool-panic", fmt.Sprintf("Hash/VerifyTxBody/TxGuard/TxPool panic on a tx with JSON data (%s): %s", class, pmsg), map[string]interface{}{"data": string(tx.Data()), "type": tx.Type()})
+			}
 		}
 	}
 	// (6c) ConfirmMsg for unknown blocks at > 10240 distinct heights: ConfirmCache.Push calls Clear while holding its own mutex
@@ -1229,4 +1400,7 @@ func c15(c *Ctx) {
 				span, bc.height, calls, time.Since(start).Round(time.Millisecond)), map[string]interface{}{"from": 0, "to": span, "lookups": calls})
 		}
 	}
+
+	// (7) dropping the connection from several goroutines at once: source facts + runtime hammer (c15_close.go)
+	c15CloseChecks(c)
 }
